@@ -13,6 +13,30 @@ F14 = "sequence of zero-width elements loops `count` times without consuming inp
 F27 = ("decoding a recursive derived type recurses once per nesting level with ~700 bytes of stack each: an 18 KB input "
        "nested 3000 deep aborts the process (stack overflow) on a default-stack thread")
 F14_WITNESS = {"env": "-", "cmd": "dec", "ty": "(ll unit)", "hex": "feffffff0f"}
+F30 = ("every back-reference to a de-duplicated string is expanded to an owned copy of the string: a Vec<DeduplicatedString> "
+       "of one 8000-byte string followed by 8000 one-byte back-references (16 KB of input) decodes to 64 MB of live strings - "
+       "memory quadratic in the input length")
+
+
+def zz(n):
+    z, out = ((n << 1) ^ (n >> 31)) & 0xffffffff, bytearray()
+    while True:
+        if z < 128:
+            out.append(z)
+            return bytes(out)
+        out.append((z & 0x7f) | 0x80)
+        z >>= 7
+
+
+def f30_witness(length=8000, count=8000):
+    b = zz(count + 1) + zz(length) + b"a" * length + zz(-1) * count
+    return {"env": "-", "cmd": "decq", "ty": "(vec dstr)", "hex": b.hex(), "_len": len(b)}
+
+
+def dedup_backrefs(c):
+    """the class of known finding F30: the type reads de-duplicated strings (back-references are expanded)"""
+    return "dstr" in c["ty"] or (c.get("env") or "-") != "-" and "dstr" in c["env"]
+
 
 
 def type_pool(rng, n_env):
@@ -194,13 +218,15 @@ def run_side_with_hangs(exe, cases, wd, tag, extra, limit_note):
 
 
 def strip_alloc(line):
+    """'<result> A<largest single request>,<peak of live bytes during the decode>' -> (result, request, peak)"""
     if line is None:
-        return None, None
+        return None, None, None
     if " A" in line:
         body, _, a = line.rpartition(" A")
-        if a.isdigit():
-            return body, int(a)
-    return line, None
+        req, _, peak = a.partition(",")
+        if req.isdigit() and peak.isdigit():
+            return body, int(req), int(peak)
+    return line, None, None
 
 
 def check(rep, tier, seed):
@@ -245,9 +271,10 @@ def check(rep, tier, seed):
     bad, dis = [], []
     classes = {}
     max_ratio = 0.0
+    max_live = 0.0
     for c, m, a_rel, a_dbg in zip(kc, km, res["release"], res["debug"]):
         for prof, a in (("release", a_rel), ("debug", a_dbg)):
-            body, alloc = strip_alloc(a)
+            body, alloc, peak = strip_alloc(a)
             cls = (body or "missing").split(" ")[0].split("(")[0]
             classes[cls] = classes.get(cls, 0) + 1
             if body is None or cls in ("panic", "hang") or cls.startswith("abort"):
@@ -258,6 +285,12 @@ def check(rep, tier, seed):
                 max_ratio = max(max_ratio, alloc / bound)
                 if alloc > bound:
                     bad.append((c, prof, a, f"allocation request of {alloc} bytes for {c['_len']} input bytes"))
+                # everything live at the highest point of the decode (the harness's own value representation costs up
+                # to ~200 bytes per decoded node, growth by doubling another factor 2)
+                lbound = 262144 + 2048 * c["_len"]
+                max_live = max(max_live, peak / lbound)
+                if peak > lbound and not dedup_backrefs(c):
+                    bad.append((c, prof, a, f"{peak} bytes live during the decode of {c['_len']} input bytes"))
             if body != m:
                 dis.append((C.codec_line(c), f"{prof}: {body}", m))
     # the known finding: confirm the witness still reproduces (watchdog), then say so
@@ -269,6 +302,22 @@ def check(rep, tier, seed):
             rep.known(F14)
         else:
             bad.append((F14_WITNESS, "release", "hang", "hang"))
+    # known finding F30: confirm the amplification witness, and that the same shape WITHOUT back-references stays linear
+    f30_listed = any(k.get("id") == "F30" for k in known.get("findings", []))
+    w30 = f30_witness()
+    plain = dict(w30, ty="(vec str)", hex=(zz(8001) + (zz(1) + b"a") * 8001).hex())
+    plain["_len"] = len(plain["hex"]) // 2
+    r30 = run_side_with_hangs(harness, [w30, plain], wd, "f30", ["--alloc", "--limit-ms=8000"], "release")
+    live30 = [strip_alloc(x)[2] for x in r30]
+    rep.coverage["backreference_amplification"] = {"input_bytes": w30["_len"], "live_bytes": live30[0],
+                                                   "same_count_of_plain_strings_live_bytes": live30[1]}
+    if live30[0] is not None and live30[0] > 262144 + 2048 * w30["_len"]:
+        if f30_listed:
+            rep.known(F30)
+        else:
+            bad.append((w30, "release", r30[0], f"{live30[0]} bytes live during the decode of {w30['_len']} input bytes"))
+    if live30[1] is None or live30[1] > 262144 + 2048 * plain["_len"]:
+        bad.append((plain, "release", r30[1], f"{live30[1]} bytes live during the decode of {plain['_len']} input bytes"))
     # negative lengths for zero-width element types (repaired by /repo 843c370): an error at once, in both profiles
     negs = [{"env": "-", "cmd": "dec", "ty": t, "hex": h, "_len": len(h) // 2}
             for t in ("(vec unit)", "(ll unit)", "(hset unit)", "(arr 0 unit)", "(arr 3 unit)", "(vec (box unit))")
@@ -314,6 +363,7 @@ def check(rep, tier, seed):
         "disagreements_checked": 2 * len(kc), "disagreements": len(dis),
         "outcome_classes_both_profiles": classes, "model_fuel_exhausted_cases": nfuel,
         "largest_allocation_over_bound": round(max_ratio, 4),
+        "largest_live_bytes_over_bound": round(max_live, 4),
     })
     if bad:
         c, prof, a, why = bad[0]
